@@ -205,11 +205,25 @@ pub fn shift_event(rng: &mut StdRng) -> Value {
         }
         off += c.numel();
     }
+    // overflowing entries in a PSD cone (every twentieth event with one): nothing can be said about the result, but the
+    // call must return (the eigenvalue routine fails on such data)
+    let overflow = cones.iter().any(|c| matches!(c, ConeSpec::Psd(_))) && rng.gen::<f64>() < 0.25;
+    if overflow {
+        let mut off = 0;
+        for c in &cones {
+            if let ConeSpec::Psd(_) = c {
+                let big = [1e300, 1.5e308, f64::INFINITY][rng.gen_range(0..3)];      // (an overflowed initial solve hands over infinite entries)
+                for i in off..off + c.numel() { s[i] = gen::normal(rng) * big; z[i] = gen::normal(rng) * [1.0, big][rng.gen_range(0..2)]; }
+            }
+            off += c.numel();
+        }
+    }
     let (s0, z0) = (s.clone(), z.clone());
     let cc: Vec<_> = cones.iter().map(|c| c.to_clarabel()).collect();
     let res = catch_unwind(AssertUnwindSafe(|| { let (mut a, mut b) = (s.clone(), z.clone()); verif::shift_to_interior(&cc, &mut a, &mut b); (a, b) }));
     match res {
         Err(e) => json!({"ev": "Panic", "kind": "shift", "msg": crate::rec_ipm::panic_msg(e)}),
+        Ok(_) if overflow => json!({"ev": "ShiftOverflow", "returned": true, "cones": serde_json::to_value(&cones).unwrap()}),
         Ok((sa, za)) => {
             let mg = observer::cone_margins(&cones, &sa, &za);
             let mut sm = vec![]; let mut zm = vec![];
